@@ -241,7 +241,7 @@ func TestMonitorsFireOnDoctoredObservations(t *testing.T) {
 		{"basket supply off", "put", "C05/basket-supply!=credits", func(_, post *chain.State) {
 			post.Supply["eco.uC.NCT"] = "19999999"
 		}},
-		{"put mints wrong amount", "put", "C05/put-minted-wrong-amount", func(_, post *chain.State) {
+		{"put mints wrong amount", "put", "C05/put-minted!=units", func(_, post *chain.State) {
 			post.Balances[1].Coins["eco.uC.NCT"] = "19999999"
 		}},
 		{"class not allowed", "put", "C11/put-accepted-inadmissible:class-not-allowed", func(pre, _ *chain.State) {
